@@ -1,12 +1,18 @@
-import IodineModel.Lemmas.C02d13
+import IodineModel.Lemmas.C02qD4
 /-
-Downstream transfer in immediate mode: the beginning — the client's poll fetches the first fragment (three steps).
+C02 phase 2, downstream / immediate mode, desynchronised start — the packets that DO arrive.
+
+`down_firstG`: `down_first` (C02d14) for a first fragment whose sequence number is 1..4 ahead of the client's (the proof is
+that of `down_first`; only the three places that used "the next number" changed).  `down_packet_imm_desync_ok`: from a state
+desynchronised by `d ≤ 3` the conclusion of `down_packet_imm` holds unchanged — same step count, delivered exactly once, and
+the joint state is SYNCHRONISED again (`QuietImm`): the client adopts the new number with the first fragment.
 -/
 namespace Iodine.C02L
 open Iodine Iodine.Gen Iodine.World
 
-theorem down_first {P : Par} (hP : P.Ok) {frame : List Nat} {w : W} {sq : Int}
-    (h : DownIdle P (0x5a :: frame) w sq) (h64 : (0x5a :: frame).length ≤ 65536) (h4 : 4 ≤ frame.length)
+theorem down_firstG {P : Par} (hP : P.Ok) {frame : List Nat} {w : W} {sq : Int}
+    (h : DownIdleG P (0x5a :: frame) w sq)
+    (hj : ∃ j : Nat, 1 ≤ j ∧ j ≤ 4 ∧ sq = (w.cs.c.inpkt.seqno + j) % 8) (h64 : (0x5a :: frame).length ≤ 65536) (h4 : 4 ≤ frame.length)
     (hto : (Client.selectOf w.cs.c).to < 10000000)
     (hexp : ¬ w.cs.c.lastdownstreamtime + 60 < w.cs.c.now + ((Client.selectOf w.cs.c).to / 1000000).toNat)
     (hlive : w.srv.now + ((Client.selectOf w.cs.c).to / 1000000).toNat < (Server.getUser w.srv P.u).lastPkt + 60) :
@@ -19,7 +25,8 @@ theorem down_first {P : Par} (hP : P.Ok) {frame : List Nat} {w : W} {sq : Int}
             (Server.getUser w'.srv P.u).lastPkt = w'.srv.now ∧ w'.cs.c.lastdownstreamtime = w'.cs.c.now ∧
             w'.cs.c.selecttimeout = w.cs.c.selecttimeout ∧ w'.cs.c.sendPingSoon ≤ 5)) := by
   generalize hT : ((Client.selectOf w.cs.c).to / 1000000).toNat = T at hexp hlive
-  have hsqr : 0 ≤ sq ∧ sq < 8 := by rw [h.exp]; omega
+  obtain ⟨j, hj1, hj4, hjs⟩ := hj
+  have hsqr : 0 ≤ sq ∧ sq < 8 := by rw [hjs]; omega
   have hlen0 : (0x5a :: frame).length ≠ 0 := by simp
   have hq0 : quiet P.u w = false := quiet_false_of_out (by rw [h.srv.op]; exact hlen0)
   -- step 1: the client polls
@@ -102,11 +109,11 @@ theorem down_first {P : Par} (hP : P.Ok) {frame : List Nat} {w : W} {sq : Int}
   have hE : CExpect (pingState c1) (0x5a :: frame) sq 0 0 := by
     left
     rw [hinp]
-    exact ⟨rfl, rfl, 1, Nat.le_refl _, by omega, h.exp⟩
+    exact ⟨rfl, rfl, j, hj1, hj4, hjs⟩
   have hdup : sq = (pingState c1).inpkt.seqno ∨ Client.recentSeqno (pingState c1).inpkt.seqno sq = false := by
     right
-    rw [hinp, h.exp]
-    exact recentSeqno_next _ h.cst.iseq
+    rw [hinp, hjs]
+    exact recentSeqno_far _ h.cst.iseq j ⟨hj1, hj4⟩
   refine ⟨D, hDdef, hDpos, hDle, ?_⟩
   have hsu : (Server.getUser s' P.u).inpacket.seqno = w.cs.c.outpkt.seqno := by rw [hin']; exact h.syncu
   by_cases hlast : D = (0x5a :: frame).length
@@ -214,5 +221,69 @@ theorem down_first {P : Par} (hP : P.Ok) {frame : List Nat} {w : W} {sq : Int}
         have : c3.randSeed = (w.cs.c.randSeed + 1) % 65536 := by rw [← hc3]; show (pingState c1).randSeed = _; rw [hpf.seed, hseed]
         rw [this]; exact hPA'
     · intro hc; omega
+
+/-- **down_packet_imm_desync_ok** (every payload of at most 16 fragments, every fragment size).  From a quiescent joint state
+in which the server's downstream sequence number is `d ≤ 3` ahead of the client's, with the timer room of `down_packet_imm`:
+the conclusion of `down_packet_imm` — after `downSteps g` steps the joint state is quiescent AND SYNCHRONISED, the client has
+written exactly the offered frame to its tun device, the server nothing. -/
+theorem down_packet_imm_desync_ok {P : Par} (hP : P.Ok) {w : W} {d : Nat} (hq : QuietImmD P 0 d w) (hd : d ≤ 3) (frame : List Nat)
+    (hF : 0 < (Server.getUser w.srv P.u).fragsize)
+    (hok : DownFrameOk (Server.getUser w.srv P.u).tunIp (Server.getUser w.srv P.u).fragsize frame)
+    (hto : (Client.selectOf w.cs.c).to < 10000000)
+    (hexp : ¬ w.cs.c.lastdownstreamtime + 60 < w.cs.c.now + ((Client.selectOf w.cs.c).to / 1000000).toNat)
+    (hlive : w.srv.now + ((Client.selectOf w.cs.c).to / 1000000).toNat < (Server.getUser w.srv P.u).lastPkt + 60) :
+    ∃ w', promptSteps P.u (downSteps (downFrags (Server.getUser w.srv P.u).fragsize (frame.length + 1) (frame.length + 1)))
+        (step w (.offerS frame)) = some w' ∧
+      QuietImm P w' ∧ w'.tunC = w.tunC ++ [tunImage frame] ∧ w'.tunS = w.tunS ∧
+      (Server.getUser w'.srv P.u).fragsize = (Server.getUser w.srv P.u).fragsize ∧
+      (Server.getUser w'.srv P.u).tunIp = (Server.getUser w.srv P.u).tunIp ∧
+      (Server.getUser w'.srv P.u).lastPkt = w'.srv.now ∧ w'.cs.c.lastdownstreamtime = w'.cs.c.now ∧
+      w'.cs.c.selecttimeout = w.cs.c.selecttimeout ∧ w'.cs.c.sendPingSoon ≤ 5 := by
+  generalize hFdef : (Server.getUser w.srv P.u).fragsize = F at hok hF ⊢
+  obtain ⟨w1, hw1, hidle, ht1, ht2, htip1, hfs1, hnow1, hlp1, hcs1⟩ := down_offerD hP hq frame hok.h24 hok.hl hok.dst (by rw [hFdef]; exact hF)
+  rw [hw1]
+  have hlen : (0x5a :: frame).length = frame.length + 1 := by simp
+  obtain ⟨D, hD, hDpos, hDle, w2, hs, hfs2, htip2, hts2, hsel2, hmid, hwhole⟩ := down_firstG hP hidle ⟨d + 1, by omega, by omega, by rw [hcs1]⟩ (by rw [hlen]; have := hok.hl; omega)
+    (by have := hok.h24; omega) (by rw [hcs1]; exact hto) (by rw [hcs1]; exact hexp) (by rw [hcs1, hnow1, hlp1]; exact hlive)
+  rw [hfs1, hFdef, hlen] at hD
+  have hu : downFrags F (frame.length + 1) (frame.length + 1) = 1 + downFrags F frame.length (frame.length + 1 - D) := by
+    show (if frame.length + 1 = 0 then 0 else 1 + downFrags F frame.length (frame.length + 1 - downLen F (frame.length + 1))) = _
+    rw [if_neg (by omega), hD]
+  rw [hu]
+  rw [hlen] at hmid hwhole hDle
+  by_cases he : D = frame.length + 1
+  · obtain ⟨hq2, htc, hx1, hx2, hx3, hx4⟩ := hwhole he
+    have hz : frame.length + 1 - D = 0 := by omega
+    rw [hz, downFrags_zero]
+    refine ⟨w2, by simpa [downSteps] using hs, hq2, by rw [htc, ht2], by rw [hts2, ht1], by rw [hfs2, hfs1, hFdef], by rw [htip2, htip1],
+      hx1, hx2, by rw [hx3, hcs1], hx4⟩
+  · obtain ⟨c0, hping, htc⟩ := hmid (by omega)
+    have hfr := hok.frags
+    rw [hu] at hfr
+    obtain ⟨w', h1, h2, h3, h4, h5, h6, h7, h8, h9, h10⟩ := down_loop hP (frame := frame) (by rw [hlen]; have := hok.hl; omega) (by have := hok.h24; omega) F
+      frame.length w2 c0 0 D 0 hping (by rw [hfs2, hfs1, hFdef]) (by rw [hlen]; omega) (by rw [hlen]; simp only [Nat.zero_add]; omega)
+    rw [hlen] at h1
+    simp only [Nat.zero_add] at h1
+    have hg1 : 1 ≤ downFrags F frame.length (frame.length + 1 - D) := by
+      cases hfl : frame.length with
+      | zero => have := hok.h24; omega
+      | succ k =>
+        have : k + 1 + 1 - D ≠ 0 := by omega
+        show 1 ≤ (if k + 1 + 1 - D = 0 then 0 else 1 + downFrags F k (k + 1 + 1 - D - downLen F (k + 1 + 1 - D)))
+        rw [if_neg this]; omega
+    have hc0sel : c0.selecttimeout = w.cs.c.selecttimeout := by
+      have e1 : w2.cs.c = pingState c0 := hping.cli
+      have := hsel2
+      rw [e1, (pingFacts c0).selto, hcs1] at this
+      exact this
+    refine ⟨w', ?_, h2, by rw [h3, htc, ht2], by rw [h4, hts2, ht1], by rw [h5], by rw [h6, htip2, htip1], h7, h8, by rw [h9, hc0sel], h10⟩
+    have := promptSteps_add P.u 3 (2 * downFrags F frame.length (frame.length + 1 - D) + 3) w1 w2 hs
+    rw [h1] at this
+    rw [← this]
+    congr 1
+    unfold downSteps
+    rw [if_neg (by omega)]
+    omega
+
 
 end Iodine.C02L
